@@ -9,6 +9,37 @@ SELF_ID = ('init', (('P', 'self'), 'state_id'))
 SELF_ID0 = ('init', (('P', 'self'), 'state_id', '0'))
 
 
+TRANSITIONS = ('send', 'close', 'try_receive', 'receive_or_register', 'remove_waiter')
+
+
+def _only_for_send(F, CG, fn):
+    """a private helper of the state struct (`advance_state_id`) that only `send` calls, directly or through other
+    such helpers: its write is send's write (what send does with it on each path is judged below)"""
+    from rl import is_private_helper
+    if not is_private_helper(F, CG, fn) or fn.get('name') in TRANSITIONS:
+        return False
+    seen, work = set(), [fn['path']]
+    while work:
+        q = work.pop()
+        cs = [c for c, _ in CG.callers_of(q) if c != q]
+        if not cs:
+            return False
+        for c in cs:
+            if c in seen:
+                continue
+            seen.add(c)
+            cf = F.fn(c)
+            if cf is None:
+                return False
+            if method_role(F, cf)[0] == 'send' and cf.get('impl_adt') == STATE:
+                continue
+            if cf.get('impl_adt') == STATE and is_private_helper(F, CG, cf) and cf.get('name') not in TRANSITIONS:
+                work.append(c)
+                continue
+            return False
+    return True
+
+
 def run(C, R):
     R.explanation = ('R1 state_id is written only by `+= 1` in send, on the MIR path that stores the value and '
                      'drains the waiters with a waking closure, under !is_closed and id != u64::MAX: strictly '
@@ -51,7 +82,7 @@ def run(C, R):
                     names = [x.get('f') for x in p if isinstance(x, dict) and 'f' in x]
                     if 'state_id' in names and fn.get('impl_adt') == STATE and s['place']['l'] == 1:
                         nw += 1
-                        if method_role(F, fn)[0] != 'send':
+                        if method_role(F, fn)[0] != 'send' and not _only_for_send(F, C.cg(cfg), fn):
                             R.fail('C13.R1', [fn['path'], 'id-write-outside-send'],
                                    'state_id is written in %s' % fn['path'], F.loc(fn, s['ln']))
         # ... and the stores made through a method of the id type itself (`self.state_id.advance()`), seen as write
